@@ -20,7 +20,7 @@ PROP = "C01"
 MANIFEST = dict(
     level="exploration", design_ref="DESIGN.md 8 (C01), 7 (Surface), 10",
     technique="TLA+ environment grammar of the public API (TLC simulation generates call histories with boundary arguments) executed on the real library under run-time monitors; TLC trace validation of every callback record against P_C01; the modelled panic/hang sources are model-checked in Arena/Mixer/StaticSound",
-    text="TLC generates configurations and call histories over a boundary alphabet for every builder and handle call the harness interprets (static and streaming sounds, tracks with each of the eight effects, send and spatial tracks, listeners, clocks, tweener and LFO modulators, modulator links, every handle command, drops, sample-rate changes) interleaved with callbacks of 0-64 frames; each callback's panic flag, allocation counters, sample scan, extra-channel scan, mono/stereo comparison and watchdog result is validated by TLC. 'Every finite argument' is reached only through this alphabet; NaN propagation inside DSP recursions is observed, not modelled.",
+    text="TLC generates configurations and call histories over a boundary alphabet for every builder and handle call the harness interprets (static and streaming sounds, tracks with each of the eight effects, send and spatial tracks, listeners, clocks, tweener and LFO modulators, modulator links, every handle command, drops, sample-rate changes) interleaved with callbacks of 0-64 frames, plus two directed products (every effect x level x buffer size x device-rate change; every channel count x volume x panning of a loud sound); each callback's panic flag, allocation counters, sample scan, extra-channel scan, mono/stereo comparison and watchdog result is validated by TLC. 'Every finite argument' is reached only through this alphabet; NaN propagation inside DSP recursions is observed, not modelled.",
     note="Exploration level: the input space is sampled by TLC simulation, not exhausted. Allocation counting uses a counting global allocator armed only on the thread and for the duration of the callback (probe bookkeeping excluded). The mono/extra-channel check compares against a stereo shadow session and is skipped when a streaming sound's free-running decoder makes output timing-dependent. Panics in gameplay-side calls are recorded but not judged (the property is about the callback).")
 
 
@@ -29,6 +29,31 @@ def write_cfg(name, text):
     os.makedirs(os.path.dirname(p), exist_ok=True)
     open(p, "w").write(text)
     return p
+
+
+def grid():
+    """directed histories next to the simulated ones (a product the random walk visits too thinly):
+    A. every effect x every level x smallest/largest internal buffer x every ordered pair of device rates:
+       a track with the effect and a sound on it, callbacks, the rate change, callbacks;
+    B. every channel count x volume x panning of one loud two-channel sound (mix-down, clamping, extra channels)."""
+    out = []
+    snd = lambda vol, pan, tgt: {"act": "add_static", "p": [4, 0, 0, 0, 2, vol, pan, 0, 0, 0, tgt]}
+    for k in range(1, 9):
+        for l in range(6):
+            for buf in (0, 3):
+                for r0 in range(3):
+                    for r1 in range(3):
+                        if r0 == r1:
+                            continue
+                        out.append({"cfg": {"buf": buf, "rate": r0, "ch": 2, "cap": 2}, "src": "grid-effect-rate", "steps": [
+                            {"act": "add_track", "p": [k, l, 2, 0, 0, 0, 0]}, snd(2, 1, 1), {"act": "cb", "p": [3]}, {"act": "cb", "p": [2]},
+                            {"act": "rate", "p": [r1]}, {"act": "cb", "p": [3]}, {"act": "cb", "p": [1]}, {"act": "cb", "p": [3]}]})
+    for ch in range(8):
+        for vol in (1, 2, 3, 5):
+            for pan in range(5):
+                out.append({"cfg": {"buf": 3, "rate": 2, "ch": ch, "cap": 2}, "src": "grid-channels", "steps": [
+                    snd(vol, pan, 0), {"act": "cb", "p": [3]}, {"act": "cb", "p": [2]}]})
+    return out
 
 
 def run(tier):
@@ -51,6 +76,7 @@ def run(tier):
             # epilogue of every history: two callbacks (everything is picked up), a device sample-rate change, two more callbacks
             scen.append({"cfg": x[0], "src": "tlc-sim", "steps": x[1:] + [{"act": "cb", "p": [2]}, {"act": "cb", "p": [3]},
                                                                          {"act": "rate", "p": [x[0]["rate"] + 1 + len(scen) % 2]}, {"act": "cb", "p": [2]}, {"act": "cb", "p": [4]}]})
+    scen += grid()
     # the known finding D22 (callback time grows with the playback rate): one dedicated history, last (a hang ends the run)
     scen.append({"cfg": {"buf": 1, "rate": 0, "ch": 1, "cap": 2}, "src": "known-D22-fast-rate",
                  "steps": [{"act": "add_static", "p": [4, 0, 1, 0, 99, 2, 1, 0, 0, 2, 0]}, {"act": "cb", "p": [2]}, {"act": "cb", "p": [2]}]})
